@@ -1,25 +1,14 @@
 (* Specification side of row-image cells: abstract column types and values,
    what the master writes for them (enc_cell, meta_of, code_of — written from
    the MySQL sources: log_event.cc, field.cc, my_time.c, decimal.c) and the
-   canonical text a consumer must receive (text). *)
+   canonical text a consumer must receive (text).
+   The column types and the value-independent pieces live in Spec/ColTypes.v (re-exported here);
+   the JSON document type, its serialisation and its rendering in Spec/EncJson.v. *)
 From Coq Require Import String.
 From GB Require Import Base.Prelude Base.DecText Base.Calendar.
+From GB Require Export Spec.ColTypes.
+From GB Require Import Spec.EncJson.
 Open Scope Z_scope.
-
-Inductive coltype :=
-| TTiny | TShort | TInt24 | TLong | TLongLong
-| TFloat | TDouble | TYear
-| TBit (nbits : Z)
-| TEnum (w : Z) (bare : bool)
-| TSet (w : Z) (bare : bool)
-| TNewDecimal (p s : Z)
-| TDate (newdate : bool) | TTime | TDateTime | TTimestamp
-| TTimestamp2 (f : Z) | TDateTime2 (f : Z) | TTime2 (f : Z)
-| TVarchar (max : Z) (varstring : bool)
-| TChar (max : Z)
-| TBlob (lb : Z) (code : Z)
-| TGeometry (lb : Z)
-| TJson (lb : Z).
 
 Inductive value :=
 | VInt (z : Z)
@@ -33,63 +22,8 @@ Inductive value :=
 | VTime (neg : bool) (h mi s : Z) (fr : Z)          (* fr: fractional digits as a number < 10^f *)
 | VDateTime (y m d h mi s : Z) (fr : Z)
 | VTimestamp (secs : Z) (fr : Z)
-| VBytes (s : bytes).
-
-Definition code_of (ty : coltype) : Z :=
-  match ty with
-  | TTiny => 1 | TShort => 2 | TInt24 => 9 | TLong => 3 | TLongLong => 8
-  | TFloat => 4 | TDouble => 5 | TYear => 13
-  | TBit _ => 16
-  | TEnum _ bare => if bare then 247 else 254
-  | TSet _ bare => if bare then 248 else 254
-  | TNewDecimal _ _ => 246
-  | TDate nd => if nd then 14 else 10
-  | TTime => 11 | TDateTime => 12 | TTimestamp => 7
-  | TTimestamp2 _ => 17 | TDateTime2 _ => 18 | TTime2 _ => 19
-  | TVarchar _ vs => if vs then 253 else 15
-  | TChar _ => 254
-  | TBlob _ c => c
-  | TGeometry _ => 255
-  | TJson _ => 245
-  end.
-
-(* metadata value as the consumer reconstructs it from the table map *)
-Definition meta_of (ty : coltype) : Z :=
-  match ty with
-  | TBit n => (n / 8) * 256 + n mod 8
-  | TEnum w _ => 247 * 256 + w
-  | TSet w _ => 248 * 256 + w
-  | TNewDecimal p s => p * 256 + s
-  | TTimestamp2 f | TDateTime2 f | TTime2 f => f
-  | TVarchar max _ => max
-  | TChar max => (Z.lxor 254 (Z.land max 768 / 16)) * 256 + Z.land max 255
-  | TBlob lb _ | TGeometry lb | TJson lb => lb
-  | TFloat => 4 | TDouble => 8
-  | _ => 0
-  end.
-
-Definition wf_type (ty : coltype) : bool :=
-  match ty with
-  | TBit n => (1 <=? n) && (n <=? 64)
-  | TEnum w _ => (1 <=? w) && (w <=? 2)
-  | TSet w _ => (1 <=? w) && (w <=? 8)
-  | TNewDecimal p s => (1 <=? p) && (p <=? 65) && (0 <=? s) && (s <=? 30) && (s <=? p)
-  | TTimestamp2 f | TDateTime2 f | TTime2 f => (0 <=? f) && (f <=? 6)
-  | TVarchar max _ => (0 <=? max) && (max <=? 65535)
-  | TChar max => (0 <=? max) && (max <=? 1023)
-  | TBlob lb c => (1 <=? lb) && (lb <=? 4) && (249 <=? c) && (c <=? 252)
-  | TGeometry lb | TJson lb => (1 <=? lb) && (lb <=? 4)
-  | _ => true
-  end.
-
-Definition int_width (ty : coltype) : Z :=
-  match ty with TTiny => 1 | TShort => 2 | TInt24 => 3 | TLong => 4 | TLongLong => 8 | _ => 0 end.
-
-Definition frac_bytes (f : Z) : Z := (f + 1) / 2.
-(* stored fractional value: odd precisions are stored with one more (zero) digit *)
-Definition frac_store (f fr : Z) : Z := if Z.odd f then fr * 10 else fr.
-
-Definition digitsb (l : list Z) : bool := forallb (fun c => (0 <=? c) && (c <=? 9)) l.
+| VBytes (s : bytes)
+| VJson (d : jdoc).                                  (* the document of a JSON column (Spec/EncJson.v) *)
 
 Definition wf_value (ty : coltype) (uns : bool) (v : value) : bool :=
   match ty, v with
@@ -103,8 +37,7 @@ Definition wf_value (ty : coltype) (uns : bool) (v : value) : bool :=
   | TEnum w _, VEnum i => (0 <=? i) && (i <? 256 ^ w)
   | TSet w _, VSet m => (0 <=? m) && (m <? 256 ^ w)
   | TNewDecimal p s, VDecimal neg ip fp =>
-    digitsb ip && digitsb fp && (len ip =? p - s) && (len fp =? s) &&
-    (negb neg || negb (forallb (Z.eqb 0) (ip ++ fp)))          (* there is no negative zero *)
+    wf_decimalb p s neg ip fp
   | TDate _, VDate y m d => (0 <=? y) && (y <=? 9999) && (0 <=? m) && (m <=? 12) && (0 <=? d) && (d <=? 31)
   | TTime, VTime neg h mi s fr =>
     (0 <=? h) && (h <=? 838) && (0 <=? mi) && (mi <=? 59) && (0 <=? s) && (s <=? 59) && (fr =? 0) &&
@@ -125,66 +58,15 @@ Definition wf_value (ty : coltype) (uns : bool) (v : value) : bool :=
   | TVarchar max _, VBytes s => wf_bytesb s && (len s <=? max)
   | TChar max, VBytes s => wf_bytesb s && (len s <=? max)
   | (TBlob lb _ | TGeometry lb), VBytes s => wf_bytesb s && (len s <? 256 ^ lb)
+  (* a storable document (wf_doc) whose serialisation fits the lb length bytes of the column *)
+  | TJson lb, VJson d => wf_docb d && (len (ser d) <? 256 ^ lb)
   | _, _ => false
   end.
-
-(* ---- DECIMAL (decimal2bin) ---- *)
-Definition dig2bytes_spec (k : Z) : Z :=           (* bytes needed for k leftover digits *)
-  match k with 0 => 0 | 1 | 2 => 1 | 3 | 4 => 2 | 5 | 6 => 3 | _ => 4 end.
-
-Definition digits_val (l : list Z) : Z :=          (* value of a list of digit values *)
-  fold_left (fun a c => a * 10 + c) l 0.
-
-Fixpoint groups9 (n : nat) (l : list Z) : bytes :=  (* n full groups of 9 digits, 4 bytes big endian each *)
-  match n with
-  | O => []
-  | S k => be_enc 4 (digits_val (firstn 9 l)) ++ groups9 k (skipn 9 l)
-  end.
-
-Definition enc_decimal_raw (p s : Z) (ip fp : list Z) : bytes :=
-  let intg := p - s in
-  let i0 := intg / 9 in let ix := intg mod 9 in
-  let f0 := s / 9 in let fx := s mod 9 in
-  be_enc (Z.to_nat (dig2bytes_spec ix)) (digits_val (firstn (Z.to_nat ix) ip)) ++
-  groups9 (Z.to_nat i0) (skipn (Z.to_nat ix) ip) ++
-  groups9 (Z.to_nat f0) fp ++
-  be_enc (Z.to_nat (dig2bytes_spec fx)) (digits_val (skipn (Z.to_nat (f0 * 9)) fp)).
-
-Definition enc_decimal (p s : Z) (neg : bool) (ip fp : list Z) : bytes :=
-  match enc_decimal_raw p s ip fp with
-  | [] => []
-  | b0 :: r =>
-    let pos := Z.lxor b0 128 :: r in
-    if neg then map (fun b => Z.lxor b 255) pos else pos
-  end.
-
-Fixpoint strip0 (l : list Z) : list Z :=
-  match l with 0 :: r => strip0 r | _ => l end.
-Definition digit_chars (l : list Z) : bytes := map (fun c => 48 + c) l.
-
-Definition text_decimal (neg : bool) (ip fp : list Z) : bytes :=
-  (if neg then [45] else []) ++
-  (match strip0 ip with [] => [48] | l => digit_chars l end) ++
-  (match fp with [] => [] | _ => 46 :: digit_chars fp end).
-
-(* ---- temporal ---- *)
-Definition enc_frac (f fr : Z) : bytes := be_enc (Z.to_nat (frac_bytes f)) (frac_store f fr).
-Definition text_frac (f fr : Z) : bytes := if f =? 0 then [] else 46 :: pad0 (Z.to_nat f) fr.
-Definition text_hour (h : Z) : bytes := if h <? 100 then pad0 2 h else digs h.
-Definition text_date (y m d : Z) : bytes := pad0 4 y ++ [45] ++ pad0 2 m ++ [45] ++ pad0 2 d.
-Definition text_clock (h mi s : Z) : bytes := pad0 2 h ++ [58] ++ pad0 2 mi ++ [58] ++ pad0 2 s.
-
-Definition enc_time2 (f : Z) (neg : bool) (h mi s fr : Z) : bytes :=
-  let hms := h * 4096 + mi * 64 + s in
-  let fs := frac_store f fr in
-  let nb := frac_bytes f in
-  let '(ip, fb) := if neg then (- hms - (if fs =? 0 then 0 else 1), if fs =? 0 then 0 else 256 ^ nb - fs)
-                   else (hms, fs) in
-  be_enc 3 (8388608 + ip) ++ be_enc (Z.to_nat nb) fb.
 
 Section Oracles.
 Variable ffmt : Z -> Z -> bytes.
 Variable tz : Z -> Z.
+Variable efmt : Z -> bytes.            (* strconv.AppendFloat(nil, Float64frombits(bits), 'E', -1, 64): doubles inside JSON *)
 
 Definition text_timestamp (secs : Z) : bytes :=
   if secs =? 0 then str "0000-00-00 00:00:00"%string
@@ -219,10 +101,12 @@ Definition enc_cell (ty : coltype) (v : value) : bytes :=
   | TVarchar max _, VBytes s => (if max >? 255 then le_enc 2 (len s) else [len s]) ++ s
   | TChar max, VBytes s => (if max >? 255 then le_enc 2 (len s) else [len s]) ++ s
   | (TBlob lb _ | TGeometry lb), VBytes s => le_enc (Z.to_nat lb) (len s) ++ s
+  | TJson lb, VJson d => le_enc (Z.to_nat lb) (len (ser d)) ++ ser d       (* a blob holding the binary document *)
   | _, _ => []
   end.
 
-(* canonical text delivered for a value; None never occurs for a non-NULL cell *)
+(* canonical text delivered for a value; None never occurs for a non-NULL cell.  A JSON value is delivered as the
+   rendering of its document (Spec/EncJson.v render_top), doubles through the oracle efmt. *)
 Definition text (ty : coltype) (uns : bool) (v : value) : bytes :=
   match ty, v with
   | (TTiny | TShort | TInt24 | TLong | TLongLong), VInt z => digs_Z z
@@ -242,6 +126,7 @@ Definition text (ty : coltype) (uns : bool) (v : value) : bytes :=
   | TTimestamp, VTimestamp secs _ => text_timestamp secs
   | TTimestamp2 f, VTimestamp secs fr => text_timestamp secs ++ text_frac f fr
   | (TVarchar _ _ | TChar _ | TBlob _ _ | TGeometry _), VBytes s => s
+  | TJson _, VJson d => render_top efmt d
   | _, _ => []
   end.
 
